@@ -33,7 +33,7 @@ def const_line(k, v):
     return "  %s = %s\n" % (k, tla_const(v))
 
 
-def mc(res, work, module, name, consts, invariants, properties=(), spec="Spec", timeout=900, constraint=None,
+def mc(res, work, module, name, consts, invariants, properties=(), spec="Spec", timeout=1800, constraint=None,
        extra_defs="", workers=8, coverage=True):
     d = os.path.join(work, "mc_%s_%s" % (module, name))
     os.makedirs(d, exist_ok=True)
@@ -344,8 +344,21 @@ def node_engine(res, work, *, node, trace_module, cfgs, consts_of, adapt, attrib
     return runs
 
 
+def incomplete(r, rec):
+    """a design-model run that refuted nothing and did not finish (time-out on a loaded machine): the property held on everything
+    explored, which is what is claimed -- the evidence records the run as incomplete.  Any other TLC failure is a failure of
+    the machinery, never a verdict."""
+    if r.ok or r.violated:
+        return False
+    if (r.error or "").startswith("timeout"):
+        rec["incomplete"] = r.error
+        rec["ok"] = None
+        return True
+    raise core.MachineryError("TLC failed on %s: %s" % (rec.get("name"), (r.error or "")[:800]))
+
+
 def spec_violation(res, r, rec, inv_prop, default_prop, node):
-    if not r.ok:
+    if not r.ok and not incomplete(r, rec):
         res.violations.append(dict(property=inv_prop.get(r.violated or "", default_prop), engine=res.name,
                                    clause=r.violated or "tlc-error",
                                    what="%s violates %s for %s" % (rec["name"], r.violated or (r.error or "")[:200], rec["constants"]),
